@@ -54,6 +54,12 @@ chk("C20", "fault_enumeration",
     "Trusted: the simos model of POSIX semantics (differentially tested against the real os), vinstr's import swap (any os symbol the shim lacks fails the build: exit 2). Real code (instrumented copy of the working tree): control.DSC/Changes Copy/Move/Remove, AbsFiles, ParseDscFile/ParseChangesFile, internal.Copy.",
     "DESIGN.md §5 C20")
 
+chk("C14", "exploration",
+    "deterministic simulation: seeded .deb packages (36 codec pairs, member orders, extra members) on a simulated disk / simulated file system, loaded repeatedly under tape-chosen map-iteration orders of the instrumented loader, with reject classes and EIO ranges, checked against a package model; tape minimisation and exact replay",
+    "Fault-free loads demand equality of every typed control field, extensions, member index and the complete data tar listing with the model for all 36 codec pairs; reject classes must fail; under EIO a load may fail or must be model-equal with the error surfacing through Data. The loader's map-order nondeterminism is owned by the simulator (recorded choices). Sampling: evidence, not proof.",
+    "Trusted: archive/tar, gzip (stdlib) and the zstd/lzma encoders to build payloads; xz/bz2 payloads from a committed corpus; vinstr's map-range rewrite. Real code (instrumented copy): deb.Load/LoadFile and below; third-party decoders run unmodified.",
+    "DESIGN.md §5 C14")
+
 def main():
     props = [json.loads(l) for l in open(os.path.join(HERE, "properties.jsonl"))]
     ids = [p["id"] for p in props]
